@@ -137,6 +137,11 @@ fiber_t* fiber_create_from_thread() {
 
 #include <stdio.h>
 
+// handed to a fiber blocked in fiber_join() when the fiber it is joining gets
+// detached: the join then fails instead of reporting a result that does not
+// exist yet
+static char fiber_detached_while_joining;
+
 int fiber_join(fiber_t* f, void** result) {
   assert(f);
   if (result) {
@@ -153,10 +158,16 @@ int fiber_join(fiber_t* f, void** result) {
     fiber_manager_t* const manager = fiber_manager_get();
     fiber_t* const current_fiber = manager->current_fiber;
     fiber_manager_set_and_wait(manager, (void**)&f->join_info, current_fiber);
-    if (result) {
-      *result = current_fiber->result;
-    }
+    void* const joined_result = current_fiber->result;
     current_fiber->result = NULL;
+    if (joined_result == &fiber_detached_while_joining) {
+      // the fiber was detached while we were waiting for it: it has not
+      // finished, so this is not a successful join
+      return FIBER_ERROR;
+    }
+    if (result) {
+      *result = joined_result;
+    }
   } else if (old_state == FIBER_DETACH_WAIT_FOR_JOINER) {
     // the other fiber is waiting for us to join
     if (result) {
@@ -224,6 +235,10 @@ int fiber_detach(fiber_t* f) {
     // convenience, pthreads specifies undefined behaviour in that case)
     fiber_t* const to_schedule = fiber_manager_clear_or_wait(
         fiber_manager_get(), (_Atomic(void*)*)&f->join_info);
+    if (old_state == FIBER_DETACH_WAIT_TO_JOIN) {
+      // tell the joiner that its join did not complete
+      to_schedule->result = &fiber_detached_while_joining;
+    }
     to_schedule->state = FIBER_STATE_READY;
     fiber_manager_schedule(fiber_manager_get(), to_schedule);
   } else if (old_state == FIBER_DETACH_DETACHED) {
